@@ -99,6 +99,34 @@ def run_shard(rec):
                         rec.drop()
                         continue
                     run_grammar(rec, G, list(gen.all_strings('abB' if icase else 'ab', 4)), ('regex-pair', cname, r1, r2), trace=(idx % 6 == 0))
+    # Phase A3b: WIDE choices (6 .. 14 alternatives) of literals some of which are proper prefixes of later
+    # ones: `|` commits to the first alternative that matches however many there are; also Longest and
+    # mixed literal / regex / reference alternatives of that width
+    LITS = ['a', 'ab', 'abb', 'b', 'ba', 'bb', 'aa', 'aab', 'bab', 'abab', 'bbb', 'baa', 'aba', 'abba']
+    for width in (6, 8, 9, 12, 14):
+        for variant in range(6):
+            idx += 1
+            if not rec.mine(idx):
+                continue
+            order = list(LITS[:width])
+            rec_rng = __import__('random').Random(width * 100 + variant)
+            rec_rng.shuffle(order)
+            if variant == 0:
+                order = sorted(order, key=len)          # every prefix before the longer literal
+            alts = [('str', x) for x in order]
+            if variant == 4:
+                alts[width // 2] = ('re', 'ab?', False)
+            if variant == 5:
+                alts[1] = ('ref', 'Rab')
+            for cname, cx in (('alt-rest', ('seq', [('alt', alts), ('re', '[ab]*', False)])),
+                              ('alt-star', ('seq', [('star', ('alt', alts)), ('re', '[ab]*', False)])),
+                              ('alt-then-b', ('alt', [('seq', [('alt', alts), ('str', 'b')]), ('re', '[ab]*', False)])),
+                              ('longest-rest', ('seq', [('longest', alts), ('re', '[ab]*', False)]))):
+                G = gen.shape_grammar(cx, gen.TEXT_LEAF_RULES)
+                if not gen.well_formed(G):
+                    rec.drop()
+                    continue
+                run_grammar(rec, G, list(gen.all_strings('ab', 5)), ('wide-choice', width, variant, cname), trace=(idx % 3 == 0))
     # Phase A4: Backtrack that can fail (fewer characters behind the position than it asks for) --
     # the generators elsewhere only place it behind a consuming token
     REST = ('re', '[ab]*', False)
